@@ -78,6 +78,7 @@ pub fn random(args: &Args) {
         let horizon = rng.range(60_000, 900_000) as i64;
         let mut cur_addr: Option<[u8; 4]> = None;
         let mut steps = 0;
+        let probing = rng.chance(50);
         while now < horizon && steps < 600 {
             steps += 1;
             let d = iface.poll_at(Instant::from_millis(now), &sockets).map(crate::util::ms_ceil).unwrap_or(-1);
@@ -89,6 +90,15 @@ pub fn random(args: &Args) {
                 tpoll = next_rx.max(now);
                 while !pending.is_empty() && pending[0].0 <= tpoll {
                     frames.push(pending.remove(0).1);
+                }
+            }
+            // C13 probe: sometimes poll strictly before the announced deadline with nothing arriving: nothing may happen
+            let mut probe = false;
+            if probing && frames.is_empty() && rng.chance(30) {
+                let lim = (if d < 0 { now + 1000 } else { d }).min(next_rx);
+                if lim > now + 1 {
+                    tpoll = now + 1 + rng.below((lim - now - 1) as u64) as i64;
+                    probe = true;
                 }
             }
             now = tpoll.min(horizon);
@@ -128,7 +138,7 @@ pub fn random(args: &Args) {
             }
             let pa = iface.poll_at(Instant::from_millis(now), &sockets).map(crate::util::ms_ceil).unwrap_or(-1);
             let outs: Vec<Value> = out.iter().map(|o| proj(o)).collect();
-            t.ev(json!({"ev":"poll","now":now,"deadline":d.min(2_000_000_000),"rx":rxp,"out":outs,"pa":pa.min(2_000_000_000),"event":evname,"addr":evaddr}));
+            t.ev(json!({"ev":"poll","now":now,"deadline":d.min(2_000_000_000),"rx":rxp,"out":outs,"pa":pa.min(2_000_000_000),"event":evname,"addr":evaddr,"probe":probe}));
             // the server reacts to client messages
             for f in &out {
                 if f.len() >= 42 && f[12] == 8 && f[13] == 6 && f[21] == 1 && f[38..42] == SRV_IP {
